@@ -156,7 +156,12 @@ TickStep(e) ==
       volok == \A k \in 1..Len(e.exp) : \A o \in gone : o.id = e.exp[k][1] => o.vol = e.exp[k][2]
       v1 == [v EXCEPT
                !.C04 = F(F(@, ~setok, "C04:expiry-set"), ~volok, "C04:expiry-volume"),
-               !.C10 = F(@, e.lg # <<0, 0, 0, Len(e.exp)>>, "C10:expiry-records"),
+               \* one expiry record, stamped with the new time, for every order that LEFT the book at this clock step (what left
+               \* is read off the observed books; whether the right orders left is C04's business)
+               !.C10 = F(F(F(@, e.lg # <<0, 0, 0, Len(e.exp)>>, "C10:expiry-records"),
+                           obsIds # ({o.id : o \in mkt.live} \ {e.book[k][1] : k \in 1..Len(e.book)}) \/ Len(e.exp) # Cardinality(obsIds),
+                           "C10:expiry-records-differ-from-the-orders-that-left"),
+                           \E k \in 1..Len(e.exp) : Len(e.exp[k]) >= 3 /\ e.exp[k][3] # now, "C10:expiry-record-time"),
                \* what a finished step's statistics said stays what they say (per-step sums, C08, as well as C06)
                !.C08 = F(@, ~e.nh /\ ~IsPrefix(seen, e.hist), "C08:statistics-of-a-finished-step-changed"),
                \* (e.nh: an earlier Market._set_time skipped steps; the series getters refuse the skipped times, the history is not read)
@@ -192,7 +197,10 @@ JumpStep(e) ==
       volok == \A k \in 1..Len(e.exp) : \A x \in gone : x.id = e.exp[k][1] => x.vol = e.exp[k][2]
       v1 == [v EXCEPT
                !.C04 = F(F(@, ~setok, "C04:expiry-set-at-jump"), ~volok, "C04:expiry-volume-at-jump"),
-               !.C10 = F(@, e.lg # <<0, 0, 0, Len(e.exp)>>, "C10:expiry-records"),
+               !.C10 = F(F(F(@, e.lg # <<0, 0, 0, Len(e.exp)>>, "C10:expiry-records"),
+                           obsIds # ({x.id : x \in mkt.live} \ {e.book[k][1] : k \in 1..Len(e.book)}) \/ Len(e.exp) # Cardinality(obsIds),
+                           "C10:expiry-records-differ-from-the-orders-that-left"),
+                           \E k \in 1..Len(e.exp) : Len(e.exp[k]) >= 3 /\ e.exp[k][3] # now, "C10:expiry-record-time"),
                !.C06 = F(@, e.clock # now, "C06:clock-jump")] IN
   /\ mkt' = m2
   /\ acct' = [i \in 1..Len(acct) |->
@@ -273,7 +281,9 @@ EndStep(e) ==
 \* executable pair may be left (C09; an implementation that skips an EMPTY round is not an alarm)
 QuietStep(e) ==
   /\ Keep /\ sync' = sync
-  /\ v' = [v EXCEPT !.C09 = F(@, e.exec /\ e.runacc /\ ~C03ok(mkt.live), "C09:round-missing")]
+  /\ v' = [v EXCEPT !.C09 = F(@, e.exec /\ e.runacc /\ ~C03ok(mkt.live), "C09:round-missing"),
+                      \* (a run with a trading halt rule: matching goes on - resumes - whenever the market runs)
+                      !.C16 = F(@, Hd.halt /\ e.exec /\ e.runacc /\ ~C03ok(mkt.live), "C16:no-round-although-the-market-runs")]
 
 \* the code raised inside a valid operation (clock step, getter): attributed to the property that governs it
 CrashStep(e) ==
